@@ -67,7 +67,7 @@ pub fn gen_c02(rng: &mut Rng, tier: Tier) -> Case {
     if rng.chance(1, 5) {
         // transient-fault family: one read or seek of the source fails; every later probe runs on
         // a reset cursor and must be answered exactly
-        env.faults = vec![crate::env::FaultSpec { k: rng.log_uniform(8, 2000), err: rng.below(9) as u8 }];
+        env.faults = vec![crate::env::FaultSpec { k: rng.log_uniform(8, 2000), err: rng.below(9) as u8, sticky: false }];
     }
     Case::Cursor(CursorCase { spec, env, steps, fresh_each: true, v1: false, sparse_hole })
 }
@@ -320,7 +320,7 @@ pub fn gen_c03(rng: &mut Rng, tier: Tier) -> Case {
     let mut env = gen::gen_env(rng, true);
     if rng.chance(1, 4) {
         // transient-fault family: one read or seek of the source fails somewhere in the history
-        env.faults = vec![crate::env::FaultSpec { k: rng.log_uniform(8, 3000), err: rng.below(9) as u8 }];
+        env.faults = vec![crate::env::FaultSpec { k: rng.log_uniform(8, 3000), err: rng.below(9) as u8, sticky: false }];
     }
     let sparse_hole = crate::props_file::gen_hole(rng, 15);
     Case::Cursor(CursorCase { spec, env, steps, fresh_each: false, v1: false, sparse_hole })
